@@ -87,7 +87,8 @@ Theorem C03_request_order_nodup : forall iter sel, NoDup (order_request iter sel
 Proof. exact request_order_nodup_l. Qed.
 Print Assumptions C03_request_order_nodup.
 
-(* ---------- sub-column requests (get_column_base_feature / set_feature_name) ---------- *)
+(* ---------- sub-column requests (get_column_base_feature /\
+ set_feature_name) ---------- *)
 Theorem C03_base_feature : forall s,
   no_tilde (base_feature s) /\ (s = base_feature s \/ exists r, s = (base_feature s ++ "~" ++ r)%string).
 Proof. exact base_feature_spec_l. Qed.
@@ -168,7 +169,8 @@ Theorem C03_one_table : forall order req : list feature,
 Proof. exact one_table_l. Qed.
 Print Assumptions C03_one_table.
 
-(* the tables do not depend on the order of the request list / of the engine's calls *)
+(* the tables do not depend on the order of the request list /\
+ of the engine's calls *)
 Theorem C03_order_independent : forall order1 req1 order2 req2 step cols,
   (forall r, In r req1 -> fflag r = true /\ In r order1) -> (forall g, In g order1 -> fflag g = true -> In g req1) ->
   (forall r, In r req2 -> fflag r = true /\ In r order2) -> (forall g, In g order2 -> fflag g = true -> In g req2) ->
@@ -179,8 +181,11 @@ Proof. exact order_independent_l. Qed.
 Print Assumptions C03_order_independent.
 
 (* ---------- execution modes (Model/Modes.v) ----------
-   SYNC / THREADING select from the object's own data; MULTIPROCESSING selects, in the parent, from the table a worker
-   process uploaded to the Flight store (seen_cols).  held s / transferred s: the columns held where the step ran / of the
+   SYNC /\
+ THREADING select from the object's own data; MULTIPROCESSING selects, in the parent, from the table a worker
+   process uploaded to the Flight store (seen_cols).  held s /\
+ transferred s: the columns held where the step ran /\
+ of the
    downloaded table.  Hypothesis: the transfer keeps the column SET (it may reorder) -- observed on every MULTIPROCESSING run
    (uploads recorded in the worker processes vs the columns the parent's selection saw). *)
 Require Import MV.Model.Modes.
@@ -250,4 +255,113 @@ Example C03_mode_example :
   step_table_in MMultiprocessing held transferred fgrp (fst st) 0 = ["m~1"; "b"] /\
   identify ["m"; "b"] (seen_cols MMultiprocessing held transferred 0) ORequest = RList ["m~0"; "m~1"; "b"] /\
   identify ["m"; "b"] (seen_cols MThreading held transferred 0) ORequest = RList ["m~0"; "m~1"; "b"].
+Proof. vm_compute. repeat split. Qed.
+
+(* ---------- from the planner's steps to the returned tables (Model/StepTables.v) ----------
+   C03_exact /\
+ C03_one_table above take the step of a feature as a FUNCTION.  The planner computes a RELATION: the features of
+   a feature group are split by group_features_by_compute_framework_and_options (Model/Grouping.v group_items: by (group
+   options, frameworks, declared type); a feature without declared type joins the first typed group with its options), every
+   split becomes a FeatureGroupStep, and every step that holds a requested feature contributes ONE table selected for
+   FeatureSet.get_initial_requested_features().  The statements below: that relation is the graph of a function -- for every
+   mix of declared /\
+ undeclared types, every number of (options, frameworks) classes and EVERY iteration order of the feature
+   set (the list its /\
+ the oracle ord), although WHICH typed group an untyped feature joins depends on that order (known
+   finding C15-untyped-joins-first-typed-group).
+     its             the features of one feature group (it_id = uuid, it_kb = class of (group options, frameworks), it_ty =
+                     declared type), in the iteration order of the Python set
+     group_steps     the member uuids of the steps, in the order of the dict the grouping returns
+     group_tables rq the requested members (rq = initial_requested_data) of every step that has one = the returned tables
+     occurrences u   how often u occurs over all tables;  step_of: position of the first list holding u *)
+Require Import MV.Model.Orch MV.Model.Grouping MV.Model.PlannerA MV.Model.PlannerO MV.Model.StepTables.
+Require Import MV.Spec.PlannerASpec MV.Proofs.StepTablesP.
+
+(* every feature instance of the group is a member of exactly one step: it occurs once, and the steps holding it are
+   exactly the one named by step_of *)
+Theorem C03_requested_feature_in_exactly_one_step : forall its, NoDup (map it_id its) ->
+  forall u, In u (map it_id its) ->
+  occurrences u (group_steps its) = 1 /\
+  (forall k, In u (nth k (group_steps its) []) <-> k = step_of (group_steps its) u).
+Proof. exact one_step_l. Qed.
+Print Assumptions C03_requested_feature_in_exactly_one_step.
+
+(* hence every REQUESTED instance is returned in exactly one table, once *)
+Theorem C03_requested_feature_in_exactly_one_table : forall rq its, NoDup (map it_id its) ->
+  forall u, In u (map it_id its) -> rq u = true ->
+  occurrences u (group_tables rq its) = 1 /\
+  (forall k, In u (nth k (group_tables rq its) []) <-> k = step_of (group_tables rq its) u).
+Proof. exact one_table_l. Qed.
+Print Assumptions C03_requested_feature_in_exactly_one_table.
+
+(* and nothing else is returned: the tables together hold exactly the requested instances; no table is empty; every table is
+   the requested part of one step *)
+Theorem C03_tables_are_exactly_the_requested : forall rq its,
+  Permutation (List.concat (group_tables rq its)) (filter rq (map it_id its)) /\
+  (forall u, In u (List.concat (group_tables rq its)) <-> In u (map it_id its) /\ rq u = true) /\
+  (forall t, In t (group_tables rq its) -> t <> [] /\ exists s, In s (group_steps its) /\ t = requested_of rq s).
+Proof. exact tables_exact_l. Qed.
+Print Assumptions C03_tables_are_exactly_the_requested.
+
+(* the set order may move an untyped feature to another table, never to two tables or to none *)
+Theorem C03_table_count_order_independent : forall rq its its', Permutation its its' -> NoDup (map it_id its) ->
+  forall u, occurrences u (group_tables rq its) = occurrences u (group_tables rq its').
+Proof. exact occurrences_order_independent_l. Qed.
+Print Assumptions C03_table_count_order_independent.
+
+(* the same for a WHOLE plan of the O-fragment (Model/PlannerO.v plan_O: any number of feature groups and dependency levels,
+   options, declared types, every order oracle): every feature instance of the graph is produced by exactly one step; a
+   requested one is returned in exactly one table, once; an unrequested one (dependency) in none *)
+Theorem C03_plan_requested_feature_in_exactly_one_table : forall ord g, ord_ok ord -> graph_ok (base g) ->
+  forall u, In u (ids (base g)) ->
+  occurrences u (plan_steps ord g) = 1 /\
+  (isreq (base g) u = true ->
+     occurrences u (plan_tables ord g) = 1 /\
+     (forall k, In u (nth k (plan_tables ord g) []) <-> k = step_of (plan_tables ord g) u)) /\
+  (isreq (base g) u = false -> occurrences u (plan_tables ord g) = 0).
+Proof. exact plan_one_table_l. Qed.
+Print Assumptions C03_plan_requested_feature_in_exactly_one_table.
+
+Theorem C03_plan_tables_are_exactly_the_requested : forall ord g, ord_ok ord -> graph_ok (base g) ->
+  Permutation (List.concat (plan_tables ord g)) (filter (isreq (base g)) (ids (base g))) /\
+  (forall t, In t (plan_tables ord g) -> t <> [] /\ exists s, In s (plan_O ord g) /\ t = requested_of (isreq (base g)) (uuids s)).
+Proof. exact plan_tables_exact_l. Qed.
+Print Assumptions C03_plan_tables_are_exactly_the_requested.
+
+(* NOT a property of every grouping: the second pass without its `break` (an untyped feature is added to EVERY typed group with
+   its options, Model/StepTables.v group_items_every) is not a partition.  Request [INT32 a; INT64 b; "c"], all requested:
+   the code returns [a, c] / [b] (or [b, c] / [a] in the other set order); the variant returns [a, c] / [b, c] -- c twice *)
+Theorem C03_untyped_in_every_typed_group_refuted :
+  NoDup (map it_id wit_items) /\
+  group_steps wit_items = [[0; 2]; [1]] /\ group_steps (rev wit_items) = [[1; 2]; [0]] /\
+  map (map it_id) (group_items_every wit_items) = [[0; 2]; [1; 2]] /\
+  ~ Permutation (List.concat (group_items_every wit_items)) wit_items /\
+  group_tables (fun _ => true) wit_items = [[0; 2]; [1]] /\
+  group_tables_every (fun _ => true) wit_items = [[0; 2]; [1; 2]] /\
+  occurrences 2 (group_tables (fun _ => true) wit_items) = 1 /\
+  occurrences 2 (group_tables (fun _ => true) (rev wit_items)) = 1 /\
+  occurrences 2 (group_tables_every (fun _ => true) wit_items) = 2.
+Proof. exact every_refuted_l. Qed.
+Print Assumptions C03_untyped_in_every_typed_group_refuted.
+
+(* ... and it differs from the code ONLY inside the ambiguity domain of C15 (some untyped feature is compatible with typed
+   features of two different types; Spec/GroupingSpec.v kf_ambiguous): everywhere else the `break` is a no-op.  So requests
+   with >= 2 declared types next to an untyped feature in one group are exactly where this part of the model is exercised *)
+Require Import MV.Spec.GroupingSpec.
+Theorem C03_variant_differs_only_in_ambiguity_domain : forall its,
+  kf_ambiguous its = false -> group_items_every its = group_items its.
+Proof. exact every_same_outside_l. Qed.
+Print Assumptions C03_variant_differs_only_in_ambiguity_domain.
+
+(* non-vacuity: two (options, frameworks) classes, three declared types, untyped features with and without a compatible typed
+   group, a dependency (4) that is not requested *)
+Example C03_step_tables_example :
+  let its := [ {| it_id := 0; it_kb := 0; it_ty := Some 0 |}; {| it_id := 1; it_kb := 0; it_ty := None |};
+               {| it_id := 2; it_kb := 0; it_ty := Some 1 |}; {| it_id := 3; it_kb := 1; it_ty := None |};
+               {| it_id := 4; it_kb := 0; it_ty := None |}; {| it_id := 5; it_kb := 1; it_ty := None |};
+               {| it_id := 6; it_kb := 0; it_ty := Some 1 |} ] in
+  let rq := fun u => negb (Nat.eqb u 4) in
+  group_steps its = [[0; 1; 4]; [2; 6]; [3; 5]] /\ group_tables rq its = [[0; 1]; [2; 6]; [3; 5]] /\
+  group_steps (rev its) = [[6; 2; 4; 1]; [0]; [5; 3]] /\
+  step_of (group_tables rq its) 1 = 0 /\ step_of (group_tables rq (rev its)) 1 = 0 /\ occurrences 4 (group_tables rq its) = 0.
 Proof. vm_compute. repeat split. Qed.
